@@ -71,10 +71,10 @@ BASE = {"Y": 2020, "H": 4040, "Q": 8080, "M": 24240, "I": 0, "D": 737425}
 NAN = float("nan")
 POOL = 3
 
-TRIM_OPS = {"set", "overlay", "underlay", "foverlay", "funderlay", "bin", "sc", "rsc", "rw"}   # writes and arithmetic operators
+TRIM_OPS = {"set", "setb", "setk", "overlay", "underlay", "foverlay", "funderlay", "bin", "sc", "rsc", "rw"}   # writes and arithmetic operators
 FUNCTIONAL = {"new", "init", "call", "fshift", "idx", "foverlay", "funderlay", "hstack", "bin", "sc", "rsc", "un", "copy",
               "stat", "mov", "fill", "extrap"}
-METHODS = {"set", "shift", "clip", "overlay", "underlay", "trim", "empty", "mstat", "mmov", "mfill", "rw", "mextrap"}
+METHODS = {"set", "setb", "setk", "shift", "clip", "overlay", "underlay", "trim", "empty", "mstat", "mmov", "mfill", "rw", "mextrap"}
 STATS = ["sum", "prod", "mean", "min", "max", "nansum", "nanprod", "nanmean", "nanmin", "nanmax"]
 MOVS = {"sum": "mov_sum", "avg": "mov_avg", "prod": "mov_prod"}
 FILLS = ["constant", "next", "previous", "nearest", "linear"]
@@ -95,7 +95,13 @@ def opt_per(tok):
 
 
 def cellf(tok) -> float:
-    return NAN if tok == "nan" else float(Fraction(tok))
+    if tok == "nan":
+        return NAN
+    if tok in ("inf", "-inf"):
+        return float(tok)
+    if tok == "-0":
+        return -0.0
+    return float(Fraction(tok))
 
 
 def split_ne(s, sep):
@@ -120,6 +126,9 @@ def parse_vars(tok):
         return int(tok[2:])
     if tok.startswith("vl="):
         return [int(x) for x in split_ne(tok[3:], ",")]
+    if tok.startswith("vsl="):
+        a, b = tok[4:].split(":")
+        return slice(int(a) if a else None, int(b) if b else None)
     raise ValueError("bad-op")
 
 
@@ -240,6 +249,27 @@ def exec_op(pool, ws):
         v = parse_vars(ws[3])
         args = (impl_dates(parse_dates(ws[2])), impl_data(parse_data(ws[4]), pool)) + (() if v is None else (v,))
         x.set_data(*args); return "", I(1), None
+    if op in ("setb", "setk", "getb", "getk"):
+        x = pool[I(1)]
+        d = parse_dates(ws[2]); v = parse_vars(ws[3])
+        dd = impl_dates(d)
+        if isinstance(dd, tuple) and len(dd) == 1:
+            dd = dd[0]                                   # a single period is passed bare
+        vv = tuple(v) if isinstance(v, list) else v
+        if op in ("setb", "getb"):
+            # bracket syntax: `x[dates]`, `x[dates, variants]`; a tuple of dates always needs the two-item form
+            index = dd if (v is None and not isinstance(dd, tuple)) else (dd, ... if v is None else vv)
+            if op == "setb":
+                x[index] = impl_data(parse_data(ws[4]), pool); return "", I(1), None
+            a = x[index]
+        elif op == "setk":
+            kw = {"dates": dd, "data": impl_data(parse_data(ws[4]), pool)}
+            if v is not None:
+                kw["variants"] = vv
+            x.set_data(**kw); return "", I(1), None
+        else:
+            a = x.get_data(dates=dd) if v is None else x.get_data(dd, vv)
+        return f"out={a.shape[0]}x{a.shape[1]};{show_rows(a)};", None, None
     if op == "get":
         x = pool[I(1)]
         v = parse_vars(ws[3])
@@ -346,9 +376,29 @@ class Undefined(Exception):
     """the op is outside the domain the property speaks about (mixed frequencies, shapes that do not fit, bad indices)"""
 
 
+INF = float("inf")
+
+
 def fr(x):
+    """exact value of a cell: None for NaN, +-inf as the float, a Fraction otherwise (only NaN is missing)"""
     x = float(x)
-    return None if x != x else Fraction(x)
+    if x != x:
+        return None
+    if x in (INF, -INF):
+        return x
+    return Fraction(x)
+
+
+def is_inf(x):
+    return isinstance(x, float)
+
+
+def ieee(f, a, b):
+    """a f b for observed values: exact on Fractions; with an infinite operand the IEEE result (inf, -inf or NaN -> None)"""
+    if is_inf(a) or is_inf(b):
+        r = {"add": lambda p, q: p + q, "sub": lambda p, q: p - q, "mul": lambda p, q: p * q}[f](float(a), float(b))
+        return None if r != r else r
+    return FOP[f](a, b)
 
 
 def map_of(x):
@@ -417,6 +467,8 @@ def o_dates(d, rep):
 def o_vids(v, nv):
     if v is None:
         return list(range(nv))
+    if isinstance(v, slice):
+        return list(range(*v.indices(nv)))
     out = []
     for c in ([v] if isinstance(v, int) else v):
         if not (-nv <= c < nv):
@@ -521,7 +573,7 @@ def kw_source(f, t, kw):
 
 def oracle_step(oracle, reps, ws):
     """new oracle states (list of {'nv','m'}) and the expected return of the op; raises Undefined outside the domain"""
-    op = ws[0]
+    op = {"setb": "set", "setk": "set", "getb": "get", "getk": "get"}.get(ws[0], ws[0])
     I = lambda k: int(ws[k])
     new = [dict(nv=o["nv"], m=o["m"]) for o in oracle]
     out = None
@@ -638,7 +690,7 @@ def oracle_step(oracle, reps, ws):
         nv = max(a["nv"], b["nv"]) if min(a["nv"], b["nv"]) == 1 else a["nv"]
         ma, mb = bcast(a["m"], a["nv"], nv), bcast(b["m"], b["nv"], nv)
         if op == "bin":
-            put(k, {key: FOP[f](ma[key], mb[key]) for key in ma if key in mb}, nv)
+            put(k, {key: r_ for key in ma if key in mb for r_ in [ieee(f, ma[key], mb[key])] if r_ is not None}, nv)
         else:
             starts = [r[1] for r in (reps[i], reps[j]) if r[1] is not None]
             ends = [r[1] + r[2] - 1 for r in (reps[i], reps[j]) if r[1] is not None]
@@ -655,9 +707,9 @@ def oracle_step(oracle, reps, ws):
         if c is None:
             m = {}
         elif op == "sc":
-            m = {key: FOP[f](x, c) for key, x in oracle[i]["m"].items()}
+            m = {key: r_ for key, x in oracle[i]["m"].items() for r_ in [ieee(f, x, c)] if r_ is not None}
         else:
-            m = {key: FOP[f](c, x) for key, x in oracle[i]["m"].items()}
+            m = {key: r_ for key, x in oracle[i]["m"].items() for r_ in [ieee(f, c, x)] if r_ is not None}
         put(k, m, oracle[i]["nv"])
     elif op == "un":
         k, g, i = I(1), ws[2], I(3)
@@ -840,7 +892,7 @@ def is_t_op(o: str) -> bool:
 
 
 def close(a, b, loose) -> bool:
-    if a is None or b is None or not loose:
+    if a is None or b is None or not loose or is_inf(a) or is_inf(b):
         return a == b
     return abs(a - b) <= TOL * max(1, abs(a), abs(b))
 
@@ -938,7 +990,8 @@ def run_line(line: str, ctx: Ctx | None = None, check: bool = True):
         loose = loose or is_t_op(o)
         name = ws[0] if ws else "?"
         base_name = {"foverlay": "overlay", "funderlay": "underlay", "fshift": "shift", "idx": "shift", "rsc": "sc", "cmp": "bin",
-                     "mstat": "stat", "mmov": "mov", "mfill": "fill", "mextrap": "extrap"}.get(name, name)
+                     "mstat": "stat", "mmov": "mov", "mfill": "fill", "mextrap": "extrap",
+                     "setb": "set", "setk": "set", "getb": "get", "getk": "get"}.get(name, name)
         tainted = set()
         old = list(pool)
         snaps = [(x.start, x.data.copy()) for x in old]
@@ -954,7 +1007,7 @@ def run_line(line: str, ctx: Ctx | None = None, check: bool = True):
                 exp = None
         err = None
         nd_set = None
-        if check and name == "set" and len(ws) == 5:
+        if check and name in ("set", "setb", "setk") and len(ws) == 5:
             try:
                 nd_set = count_dates(pool[int(ws[1])], ws[2])
             except Exception:
@@ -966,6 +1019,8 @@ def run_line(line: str, ctx: Ctx | None = None, check: bool = True):
                 replies.append("bad-op"); break
             err = e
         except Exception as e:
+            if type(e).__name__ == "_SearchTimeout":
+                raise                                   # the time cap of the failing-input search, not a behaviour of the code
             err = e
         if check:
             # isolation, half 1: nothing but the receiver changes (also when the op raised)
@@ -1021,7 +1076,7 @@ def run_line(line: str, ctx: Ctx | None = None, check: bool = True):
             else:
                 if got[0] != "series" or not maps_close(got[1], out[1], loose) or got[2] != out[2]:
                     fail(f"map-cmp", f"`{o}` returned {text}, expected cells {sorted((a, str(b)) for a, b in out[1].items())[:6]}", k)
-        if name in TRIM_OPS and not (name == "set" and nd_set == 0):
+        if name in TRIM_OPS and not (name in ("set", "setb", "setk") and nd_set == 0):
             # (a `set` that addresses no date is not a write: `clip`/`empty()` may have left untrimmed rows or a bare start there)
             tgt = receiver if receiver is not None else result
             if not is_trimmed(pool[tgt]):
@@ -1033,14 +1088,19 @@ def run_line(line: str, ctx: Ctx | None = None, check: bool = True):
 # generator: sequences built against the live state so that most ops are meaningful
 # ---------------------------------------------------------------------------------------
 
-def small_enough(x) -> bool:
-    """operands for which + - * are exact in double"""
+def small_enough(x, allow_inf=False) -> bool:
+    """operands for which + - * are exact in double (finite values only, unless `allow_inf`: then +-inf may be present --
+    the operators, comparisons and tests are modelled with IEEE semantics on them, sums/products/recursions are not driven)"""
     d = x.data
     if d.dtype != np.float64:
         return False
     for v in d.ravel():
         if v != v:
             continue
+        if v in (INF, -INF):
+            if allow_inf:
+                continue
+            return False
         n, den = float(v).as_integer_ratio()
         if abs(n) >= (1 << 24) or den > (1 << 24):
             return False
@@ -1052,7 +1112,11 @@ def ptok(f, s):
 
 
 def gen_cell(rng, pnan=0.2):
-    return "nan" if rng.chance(pnan) else rat_of_float(rng.dyadic(-8, 8, 3))
+    if rng.chance(pnan):
+        return "nan"
+    if rng.chance(0.05):
+        return rng.choice(["inf", "-inf", "inf", "-inf", "-0", "0"])      # observed values that are not finite / signed zero
+    return rat_of_float(rng.dyadic(-8, 8, 3))
 
 
 def gen_rows(rng, n, nv, pnan=0.25):
@@ -1119,6 +1183,10 @@ def gen_vars(rng, nv, malformed):
         if malformed and rng.chance(0.5):
             c = nv + rng.randint(0, 1)
         return f"v={c}"
+    if rng.chance(0.3):
+        a = rng.choice(["", "0", "1", "-1", "-2", str(nv)])
+        b = rng.choice(["", "1", "2", "-1", str(nv), str(nv + 1)])
+        return f"vsl={a}:{b}"
     k = rng.randint(1, nv)
     l = rng.sample(range(nv), k)
     if rng.chance(0.2):
@@ -1136,6 +1204,8 @@ def count_dates(x, dtok):
 
 def count_vars(x, vtok):
     v = parse_vars(vtok)
+    if isinstance(v, slice):
+        return len(range(*v.indices(x.data.shape[1])))
     return x.data.shape[1] if v is None else (1 if isinstance(v, int) else len(v))
 
 
@@ -1211,7 +1281,7 @@ def gen_op(rng, pool, f, malformed):
             if a == b or a == 1 or b == 1:
                 break
             j = rng.randint(0, n - 1)
-    if name in ("stat", "mov", "rw") and not small_enough(x):
+    if (name in ("stat", "mov") and not small_enough(x)) or (name == "rw" and not small_enough(x, True)):
         return f"copy {k} {i}"                         # inexact values (after a class-T op) only flow through structural ops
     if name == "stat":
         nv = x.data.shape[1]
@@ -1279,9 +1349,11 @@ def gen_op(rng, pool, f, malformed):
         d = gen_dates(rng, x, f, malformed and rng.chance(0.5))
         v = gen_vars(rng, x.data.shape[1], malformed and rng.chance(0.3))
         nd = count_dates(x, d)
-        return f"set {i} {d} {v} {gen_data(rng, nd if nd is not None else 1, count_vars(x, v), pool, malformed and rng.chance(0.3))}"
+        sp = rng.weighted([("set", 4), ("setb", 4), ("setk", 2)])          # set_data positional / bracket / keyword
+        return f"{sp} {i} {d} {v} {gen_data(rng, nd if nd is not None else 1, count_vars(x, v), pool, malformed and rng.chance(0.3))}"
     if name == "get":
-        return f"get {i} {gen_dates(rng, x, f, malformed)} {gen_vars(rng, x.data.shape[1], malformed and rng.chance(0.3))}"
+        sp = rng.weighted([("get", 4), ("getb", 4), ("getk", 2)])
+        return f"{sp} {i} {gen_dates(rng, x, f, malformed)} {gen_vars(rng, x.data.shape[1], malformed and rng.chance(0.3))}"
     rep = reported(x)
     gg = rep[0] if (rep[0] is not None and not malformed) else g
     if name == "gfu":
@@ -1289,7 +1361,10 @@ def gen_op(rng, pool, f, malformed):
         b = a + rng.weighted([(-2, 1), (0, 2), (2, 4), (5, 2)])
         return f"gfu {i} {ptok(gg, a)} {ptok(gg, b)} {gen_vars(rng, x.data.shape[1], False)}"
     if name == "call":
-        return f"call {k} {i} {gen_dates(rng, x, f, malformed)} {gen_vars(rng, x.data.shape[1], False)}"
+        v = gen_vars(rng, x.data.shape[1], False)
+        if count_vars(x, v) == 0:
+            v = "all"                                   # a series without variants is a dead end for the rest of the sequence
+        return f"call {k} {i} {gen_dates(rng, x, f, malformed)} {v}"
     if name == "shift":
         return f"shift {i} {rng.randint(-5, 5)}"
     if name == "fshift":
@@ -1314,10 +1389,10 @@ def gen_op(rng, pool, f, malformed):
     if name == "hstack":
         idx = [i] + [rng.randint(0, n - 1) for _ in range(rng.weighted([(0, 1), (1, 5), (2, 2)]))]
         return f"hstack {k} " + " ".join(str(z) for z in idx)
-    arith_ok = small_enough(pool[i]) and small_enough(pool[j])
+    arith_ok = small_enough(pool[i], True) and small_enough(pool[j], True)
     if name == "bin":
         ops = ["add", "sub", "mul"] if arith_ok else ["add", "sub"]
-        if not (small_enough(pool[i]) and small_enough(pool[j])):
+        if not arith_ok:
             return f"copy {k} {i}"
         return f"bin {k} {rng.choice(ops)} {i} {j}"
     if name == "cmp":
@@ -1325,7 +1400,7 @@ def gen_op(rng, pool, f, malformed):
             return f"copy {k} {i}"
         return f"cmp {rng.choice(['gt', 'lt', 'ge', 'le', 'eq', 'ne'])} {i} {j}"
     if name in ("sc", "rsc"):
-        if not small_enough(pool[i]):
+        if not small_enough(pool[i], True):
             return f"copy {k} {i}"
         return f"{name} {k} {rng.choice(['add', 'sub', 'mul'])} {i} {gen_cell(rng, 0.05)}"
     if name == "un":
@@ -1419,6 +1494,24 @@ def directed_lines(ctx: Ctx):
                          f" | extrap 1 0 1/2,1/4 1 {d_} | copy 1 0 | set 1 {d_} all s=9 | mfill 0 next - {d_}")
         for t_, c in (("lt", "3"), ("ge", "2"), ("eq", "6"), ("ne", "1"), ("isnan", "0")):
             lines.append(f"{h} | copy 1 0 | rw 1 {t_} {c} nan | copy 1 0 | rw 1 {t_} {c} 5 | rw 0 {t_} {c} -1/2")
+    # only NaN is missing: +-inf (and -0.0) in first / last rows, alone or next to NaN, through every op that trims
+    inf_heads = ["3 | init 0 Q 8080 1 inf:1:2", "3 | init 0 Q 8080 1 1:2:-inf", "3 | init 0 Q 8080 2 -inf,nan:1,2:nan,inf",
+                 "3 | init 0 Q 8080 1 inf", "3 | init 0 Q 8080 2 inf,-inf:-inf,inf", "3 | init 0 Q 8080 2 nan,-0:1,nan:inf,nan",
+                 "3 | init 0 Q 8080 1 0:1:2 | init 1 Q 8081 1 inf:nan:-inf"]
+    for h in inf_heads:
+        lines.append(f"{h} | set 0 l=Q8085 all s=inf | get 0 all all | set 0 l=Q8078 v=0 s=-inf | getb 0 sp=Q8077,Q8086,1 all | trim 0"
+                     f" | clip 0 Q8078 Q8085 | copy 2 0 | overlay 2 1 | underlay 1 0 | hstack 2 0 1 | call 2 0 all all")
+        lines.append(f"{h} | bin 2 add 0 0 | bin 2 sub 0 0 | bin 2 mul 0 0 | sc 2 mul 0 0 | sc 2 mul 0 -1 | rsc 2 sub 0 inf | sc 2 add 0 -inf"
+                     f" | un 2 neg 0 | un 2 abs 0 | cmp lt 0 0 | cmp ge 0 1 | cmp ne 0 1 | bin 2 mul 0 1 | bin 2 add 1 0")
+        lines.append(f"{h} | copy 2 0 | rw 2 gt 1 nan | copy 2 0 | rw 2 lt 1 inf | copy 2 0 | rw 2 isnan 0 -inf | copy 2 0 | rw 2 eq 1 inf"
+                     f" | fill 2 0 next - all | fill 2 0 previous - sp=Q8078,Q8086,1 | fill 2 0 constant inf sp=Q8078,Q8086,1 | shift 0 3 | fshift 2 0 soy")
+    # every public spelling of a read and of a write, for variant 0 and for the others, on a series with three different variants
+    h3 = "3 | init 0 Q 8080 3 1,2,3:4,5,6:7,8,9"
+    for d_ in ("l=Q8081", "l=Q8082,Q8080", "sp=Q8080,Q8082,2", "sp=Q8081,-,1", "all"):
+        for v_ in ("all", "v=0", "v=1", "v=2", "v=-1", "v=-3", "vl=0", "vl=0,2", "vl=2,0", "vsl=0:1", "vsl=:1", "vsl=1:", "vsl=-2:", "vsl=:", "vsl=0:0"):
+            for gt_, st_ in (("get", "set"), ("getb", "setb"), ("getk", "setk")):
+                lines.append(f"{h3} | {gt_} 0 {d_} {v_} | {st_} 0 {d_} {v_} s=-1/2 | {gt_} 0 {d_} {v_} | get 0 all all"
+                             f" | {st_} 0 {d_} {v_} vs=10;20;30 | get 0 all all | call 1 0 {d_} {v_}")
     ctx.count("directed_sequences", len(lines))
     return lines
 
@@ -1549,7 +1642,7 @@ def search(ctx: Ctx, seeds):
     ctx.tier = "thorough"
     lines += [l for _, l in corpus_lines()] + directed_lines(ctx)
     rng = ctx.rng.fork("search")
-    lines += [gen_sequence(rng.fork(i), 30) for i in range(20000)]
+    lines += [gen_sequence(rng.fork(i), 30) for i in range(6000)]
     process(ctx, "search", lines)
 
 
